@@ -5,6 +5,7 @@
 #include <cstdint>
 #include <string>
 #include <vector>
+#include <type_traits>
 #include <iostream>
 #include <sstream>
 
@@ -31,7 +32,8 @@ static u64 bucket(u64 max_node, u64 s, int mode = 0)
     static u64 cur_max = 0;
     static arr_t* arr[3] = {nullptr, nullptr, nullptr};
     auto fresh = [&](u64 mx) {
-        auto* buf = new std::vector<char>(sizeof(FL) * (mx + 70) + 64);      // kept alive: the lists live in it
+        // kept alive: the lists live in it (log2 buckets: at most 64 lists whatever the maximum)
+        auto* buf = new std::vector<char>(sizeof(FL) * ((std::is_same<AP, log2_access_policy>::value ? 0 : mx) + 70) + 64);
         auto* st = new fixed_memory_stack(buf->data());
         return new arr_t(*st, buf->data() + buf->size(), mx);
     };
